@@ -7,8 +7,9 @@ the Go builders in Uquic/Model/UQuic/Frames.lean and Scrambler.lean. All stateme
 ALL ClientHello contents, configurations, base offsets, scripted crypto/rand draws and shuffle
 witnesses. The varint bounds come from the regenerated `Uquic.Gen.Frames` constants.
 -/
-import Uquic.Proofs.FramesFlight
+import Uquic.Proofs.FramesFlightTotal
 import Uquic.Proofs.FramesStream
+import Uquic.Proofs.FramesAppend
 
 namespace Uquic.Props.C09
 open Uquic.Spec.Framing Uquic.Model.UQuic.Frames Uquic.Model.UQuic.Scrambler
@@ -27,6 +28,10 @@ theorem reader_reads_crypto {off : Nat} {a b : List UInt8} (data rest : List UIn
 theorem reader_reads_padding (k : Nat) (rest : List UInt8) :
     readFrames (List.replicate k 0 ++ rest) = (readFrames rest).map (List.replicate k Frame.padding ++ ·) :=
   readFrames_paddings k rest
+
+/-- `readFrames_append`: the reference reader is compositional -/
+theorem reader_append {a : List UInt8} {fa : List Frame} (h : readFrames a = some fa) (b : List UInt8) :
+    readFrames (a ++ b) = (readFrames b).map (fa ++ ·) := readFrames_append h b
 
 /-- the frame type bytes the builders hard-code are the wire package's CRYPTO and PING types -/
 theorem builder_frame_types : Uquic.Gen.Frames.FrameTypeCrypto = 6 ∧ Uquic.Gen.Frames.FrameTypePing = 1 := by
@@ -216,6 +221,25 @@ theorem randomFlight_carries {dgs : List RFDatagram} {full : List UInt8} {d : Dr
     (hb : rffBuild dgs full d perms = .ok ps) (hv : validate ps budgets full.length = .ok rs) :
     carries full 0 ps = true :=
   truthy_validate_carries (rffBuild_truthy hb) hv
+
+/-- QUICFlightFrames.BuildFlight has no panic path unless a PADDING length is negative: payloads or an
+    error, for all ranges (negative offsets and lengths included) -/
+theorem flight_never_panics (dgs : List (List QFrame)) (full : List UInt8) (hrep : full.length ≤ maxVarInt8)
+    (h : ∀ dg ∈ dgs, ∀ f ∈ dg, PadOk f) : Good (fun _ => True) (fun _ => True) (ffBuild dgs full) :=
+  ffBuild_good dgs full hrep h
+
+/-- QUICRandomFlightDatagram.build, for every parameterisation, range list, draw and shuffle: a payload
+    whose CRYPTO frames carry true stream bytes, or one of the documented errors; never a panic, the
+    `uint64` arithmetic of splitRange and of the PADDING loop never wraps -/
+theorem randomFlightDatagram_total (dg : RFDatagram) (full : List UInt8) (d : Draws) (perm : List Nat)
+    (hrep : full.length ≤ maxVarInt8) : Good (fun r => Truthy full r.1) rfdErr (rfdBuild dg full d perm) :=
+  rfdBuild_good dg full d perm hrep
+
+/-- … and QUICRandomFlightFrames.BuildFlight as a whole -/
+theorem randomFlight_never_panics (dgs : List RFDatagram) (full : List UInt8) (d : Draws) (perms : List (List Nat))
+    (hrep : full.length ≤ maxVarInt8) :
+    Good (fun ps => ∀ p ∈ ps, Truthy full p) (fun _ => True) (rffBuild dgs full d perms) :=
+  rffBuild_good dgs full d perms hrep
 
 example : ffBuild [[.crypto (-1) 0, .crypto 0 1], [.crypto 1 (-1)]] [10, 11, 12]
     = .ok [[6, 2, 1, 12, 6, 0, 1, 10], [6, 1, 1, 11]] := by decide
